@@ -94,7 +94,8 @@ def evaluate(
         Y = gradient_handle(data.data, full_model.data)
         if weights is not None:
             Y *= weights
-        G = ttb.tensor(Y, copy=False).mttkrps(model.factor_matrices)
+        # Pass the model itself so that its weights enter the gradients
+        G = ttb.tensor(Y, copy=False).mttkrps(model)
 
     if F is not None and G is not None:
         return F, G
